@@ -386,3 +386,50 @@ fixed_len_harness!(pack_string_unpack_total_len2, string_unpack_total, 2, 5);
 fixed_len_harness!(pack_string_unpack_total_len3, string_unpack_total, 3, 6);
 fixed_len_harness!(pack_string_unpack_total_len4, string_unpack_total, 4, 7);
 fixed_len_harness!(pack_string_unpack_total_len5, string_unpack_total, 5, 8);
+
+/// A length prefix near the top of the u64 range (any 10-byte varint with the top bit set, value
+/// >= 2^63; resp. any 9-byte varint, value >= 2^56) followed by payload bytes: String / Vec<u8>
+/// try_unpack and value_len must answer "not enough data", without wrapping `header + length`
+/// around (an untrusted prefix of 0xffff_ffff_ffff_fff6 must not become a small end offset).
+fn huge_prefix<const N: usize, const HDR: usize>() {
+    let mut b: [u8; N] = kani::any();
+    let mut i = 0;
+    while i < HDR - 1 {
+        b[i] |= 0x80;
+        i += 1;
+    }
+    if HDR == 10 {
+        kani::assume(b[9] == 1);
+    } else {
+        kani::assume(b[HDR - 1] < 0x80 && b[HDR - 1] > 0);
+    }
+    match Leb128::read_unsigned(&b) {
+        Some((hdr, len)) => {
+            assert!(hdr == HDR);
+            assert!(len >= (1u64 << (7 * (HDR - 1))));
+        }
+        None => panic!("a well-formed varint"),
+    }
+    let rs = <String as RleValue>::try_unpack::<Leb128>(&b);
+    assert!(rs.is_err());
+    let rb = <Vec<u8> as RleValue>::try_unpack::<Leb128>(&b);
+    assert!(rb.is_err());
+    assert!(<Vec<u8> as RleValue>::value_len::<Leb128>(&b).is_none());
+    kani::cover!(b[0] == 0xf6);
+    std::mem::forget(rs);
+    std::mem::forget(rb);
+}
+
+#[kani::proof]
+#[kani::unwind(13)]
+#[kani::stub(alloc::fmt::format, stub_format)]
+fn pack_huge_length_prefix_rejected_10() {
+    huge_prefix::<11, 10>()
+}
+
+#[kani::proof]
+#[kani::unwind(13)]
+#[kani::stub(alloc::fmt::format, stub_format)]
+fn pack_huge_length_prefix_rejected_9() {
+    huge_prefix::<10, 9>()
+}
